@@ -37,13 +37,14 @@ const (
 var c13DPNames = []string{"policy", "ipvlan", "exclusive", "vlan"}
 
 // address plan (by construction, so that shrinking never makes two roles collide):
-//   pod addresses      last byte 2+2*k+bit (k = global interface number), first byte from c13PodB0 / c13PodB06
-//   gateways           last byte 200..250
-//   host address       last byte 100..150
-//   service CIDR       172.16.0.0/12 sub-block,  fc00::/16 sub-block
-//   host-stack CIDRs   100.100.x.0/24..32,       fc01:x::/..
-//   extra routes       100.(64+j).x.0/24,         fd00:j::/48
-//   "outside"          8.8.8.8, 2001:4860:4860::8888 (covered by none of the above)
+//
+//	pod addresses      last byte 2+2*k+bit (k = global interface number), first byte from c13PodB0 / c13PodB06
+//	gateways           last byte 200..250
+//	host address       last byte 100..150
+//	service CIDR       172.16.0.0/12 sub-block,  fc00::/16 sub-block
+//	host-stack CIDRs   100.100.x.0/24..32,       fc01:x::/..
+//	extra routes       100.(64+j).x.0/24,         fd00:j::/48
+//	"outside"          8.8.8.8, 2001:4860:4860::8888 (covered by none of the above)
 var (
 	c13PodB0     = []byte{10, 11, 33, 192, 198}
 	c13PodB06    = []byte{0x24, 0x26, 0x2a, 0x2c}
@@ -55,12 +56,12 @@ var (
 )
 
 type c13ENI struct {
-	Index   int    `json:"index"`
-	Slave   int    `json:"slave"` // index of ipvl_<index> (ipvlan datapath)
-	GW4     string `json:"gw4"`
-	GW6     string `json:"gw6"`
-	Trunk4  string `json:"trunk_gw4"` // the ENI's own gateway (ENIGatewayIP)
-	Trunk6  string `json:"trunk_gw6"`
+	Index  int    `json:"index"`
+	Slave  int    `json:"slave"` // index of ipvl_<index> (ipvlan datapath)
+	GW4    string `json:"gw4"`
+	GW6    string `json:"gw6"`
+	Trunk4 string `json:"trunk_gw4"` // the ENI's own gateway (ENIGatewayIP)
+	Trunk6 string `json:"trunk_gw6"`
 }
 
 type c13Extra struct {
@@ -69,19 +70,19 @@ type c13Extra struct {
 }
 
 type c13Iface struct {
-	ENI       int        `json:"eni"` // index into ENIs (mod len)
-	IP4       string     `json:"ip4"`
-	Prefix4   int        `json:"prefix4"`
-	IP6       string     `json:"ip6"`
-	Prefix6   int        `json:"prefix6"`
-	PodGW4    string     `json:"pod_gw4"` // the pod's own vSwitch gateway when the ENI is a trunk
-	PodGW6    string     `json:"pod_gw6"`
-	HostLink  int        `json:"host_link"` // index of the host-side veth (policy, exclusive)
-	ContLink  int        `json:"cont_link"` // index of the interface inside the container
-	Veth1     int        `json:"veth1"`     // index of veth1 inside the container (exclusive)
-	Extra     []c13Extra `json:"extra"`
-	NoPeer    bool       `json:"no_peer"` // exclusive: DisableCreatePeer
-	Wide16    bool       `json:"wide16"`  // IPv4 values in 16-byte form (as net.ParseIP yields)
+	ENI      int        `json:"eni"` // index into ENIs (mod len)
+	IP4      string     `json:"ip4"`
+	Prefix4  int        `json:"prefix4"`
+	IP6      string     `json:"ip6"`
+	Prefix6  int        `json:"prefix6"`
+	PodGW4   string     `json:"pod_gw4"` // the pod's own vSwitch gateway when the ENI is a trunk
+	PodGW6   string     `json:"pod_gw6"`
+	HostLink int        `json:"host_link"` // index of the host-side veth (policy, exclusive)
+	ContLink int        `json:"cont_link"` // index of the interface inside the container
+	Veth1    int        `json:"veth1"`     // index of veth1 inside the container (exclusive)
+	Extra    []c13Extra `json:"extra"`
+	NoPeer   bool       `json:"no_peer"` // exclusive: DisableCreatePeer
+	Wide16   bool       `json:"wide16"`  // IPv4 values in 16-byte form (as net.ParseIP yields)
 }
 
 type c13Pod struct {
@@ -94,6 +95,7 @@ type c13Scenario struct {
 	V4        bool     `json:"v4"`
 	V6        bool     `json:"v6"`
 	Trunk     bool     `json:"trunk"`
+	NoENIGW   bool     `json:"no_eni_gw"` // not a trunk and the daemon sent no ENI gateway: ENIGatewayIP is nil
 	Vid       int      `json:"vid"`
 	MTU       int      `json:"mtu"`
 	ENIs      []c13ENI `json:"enis"`
@@ -147,6 +149,7 @@ func c13Gen(t *rapid.T) c13Scenario {
 		s.V4, s.V6 = true, true
 	}
 	s.Trunk = rapid.Bool().Draw(t, "trunk")
+	s.NoENIGW = !s.Trunk && rapid.Bool().Draw(t, "noenigw")
 	s.Vid = rapid.IntRange(1, 4094).Draw(t, "vid")
 	s.MTU = rapid.SampledFrom([]int{1280, 1500, 8500, 9001}).Draw(t, "mtu")
 
@@ -318,11 +321,13 @@ func c13MAC(n int) net.HardwareAddr {
 }
 
 type c13Expect struct {
-	gw4, gw6     net.IP // gateway the ENI-table / container default must use
+	gw4, gw6       net.IP // gateway the ENI-table / container default must use
 	eniGW4, eniGW6 net.IP
 }
 
-func (s *c13Scenario) eniOf(f *c13Iface) *c13ENI { return &s.ENIs[((f.ENI%len(s.ENIs))+len(s.ENIs))%len(s.ENIs)] }
+func (s *c13Scenario) eniOf(f *c13Iface) *c13ENI {
+	return &s.ENIs[((f.ENI%len(s.ENIs))+len(s.ENIs))%len(s.ENIs)]
+}
 
 // gateways as the daemon would hand them over: GatewayIP is the gateway of the vSwitch the
 // pod address lives in; ENIGatewayIP is the gateway of the ENI itself (differs on trunks).
@@ -377,6 +382,9 @@ func (s *c13Scenario) setupConfig(p, i int) *types.SetupConfig {
 		cfg.GatewayIP.IPv6 = gw6
 		cfg.ENIGatewayIP.IPv6 = eni6
 		cfg.HostIPSet.IPv6 = &net.IPNet{IP: net.ParseIP(s.HostIP6), Mask: net.CIDRMask(128, 128)}
+	}
+	if s.NoENIGW && !s.Trunk {
+		cfg.ENIGatewayIP = nil
 	}
 	for _, h := range s.HostStack {
 		cfg.HostStackCIDRs = append(cfg.HostStackCIDRs, c13CIDR(h))
@@ -531,7 +539,10 @@ type c13Loaded struct {
 	conf *nic.Conf
 }
 
-func c13Run(c *vt.Ctx, s c13Scenario) {
+func c13Run(c *vt.Ctx, s c13Scenario) { c13RunOpt(c, s, false) }
+
+// c13RunOpt: noGuard runs the oracle without the known-finding exclusions (witness tests).
+func c13RunOpt(c *vt.Ctx, s c13Scenario, noGuard bool) {
 	k := &c13Check{c: c, s: &s}
 	c.Label("dp:" + c13DPNames[s.DP])
 	fam := "v4"
@@ -566,7 +577,6 @@ func c13Run(c *vt.Ctx, s c13Scenario) {
 	nExtra, nMulti := 0, 0
 	conts := make([]*c13NS, len(s.Pods))
 	var allConfs []c13Loaded
-	var contConfs = make([][]c13Loaded, len(s.Pods))
 
 	for p := range s.Pods {
 		pod := &s.Pods[p]
@@ -584,9 +594,7 @@ func c13Run(c *vt.Ctx, s c13Scenario) {
 			note := func(ns *c13NS, idx int, what string, conf *nic.Conf, inCont bool) {
 				k.load(ns, idx, tag+" "+what, conf)
 				allConfs = append(allConfs, c13Loaded{tag + " " + what, conf})
-				if inCont {
-					contConfs[p] = append(contConfs[p], c13Loaded{tag + " " + what, conf})
-				}
+				_ = inCont
 			}
 			switch s.DP {
 			case c13DPPolicy:
@@ -683,8 +691,8 @@ func c13Run(c *vt.Ctx, s c13Scenario) {
 			if len(arts) == 0 {
 				continue
 			}
-			if !v6 && c13OnlyOifRules(arts) && vt.Known("C13-oif-rule-ipv4-only") {
-				c.Label("known:C13-oif-rule-ipv4-only")
+			if !v6 && c13OnlyOifRules(arts) && !noGuard && vt.Known(c13KnownOifRule) {
+				c.Label("known:" + c13KnownOifRule)
 				continue
 			}
 			famName := map[bool]string{false: "IPv4", true: "IPv6"}[v6]
@@ -941,9 +949,36 @@ func c13Run(c *vt.Ctx, s c13Scenario) {
 			}
 		}
 	}
-	_ = contConfs
 }
 
 func TestVerifC13Routing(t *testing.T) {
 	vt.Run(t, c13Gen, c13Run)
+}
+
+// known-finding ids (consulted only while listed as open in known_findings.json)
+const (
+	// with MultiNetwork every generator emits `oif <ifname> lookup 1000+ifindex` without a
+	// family; netlink installs it as an IPv4 rule, also for a pod that has no IPv4
+	c13KnownOifRule = "C13-oif-rule-ipv4-only"
+	// ExclusiveENI.Setup creates the host-side veth for eth0 only but afterwards looks it
+	// up for every interface, so eth1 of a multi-network pod cannot be set up
+	c13KnownEth1Peer = "C13-exclusive-eth1-host-peer"
+)
+
+// Deterministic witness of C13-oif-rule-ipv4-only.
+func TestVerifC13KnownOifRule(t *testing.T) {
+	s := c13Scenario{DP: c13DPExclusive, V6: true, MTU: 1500, Vid: 1,
+		ENIs: []c13ENI{
+			{Index: 3, Slave: 4, GW4: "10.0.0.200", GW6: "fe80::c8", Trunk4: "10.0.0.220", Trunk6: "2400::dc"},
+			{Index: 5, Slave: 6, GW4: "10.0.0.201", GW6: "fe80::c9", Trunk4: "10.0.0.221", Trunk6: "2400::dd"},
+		},
+		HostIP4: "10.0.0.100", HostIP6: "2400::64",
+		Pods: []c13Pod{{Default: 0, Ifaces: []c13Iface{
+			{ENI: 0, IP4: "10.0.0.2", Prefix4: 24, IP6: "2400::2", Prefix6: 64, PodGW4: "10.0.0.230", PodGW6: "2400::e6", HostLink: 7, ContLink: 2, Veth1: 3},
+			{ENI: 1, IP4: "10.0.0.4", Prefix4: 24, IP6: "2400::4", Prefix6: 64, PodGW4: "10.0.0.231", PodGW6: "2400::e7", HostLink: 8, ContLink: 4, Veth1: 5},
+		}}},
+	}
+	vt.Witness(t, "C13", c13KnownOifRule,
+		"an IPv6-only pod with two interfaces (MultiNetwork) gets the per-interface rule `oif ethN lookup 1000+ifindex` as an IPv4 rule: something is created for the disabled family (all four container generators)",
+		s, func(c *vt.Ctx, s c13Scenario) { c13RunOpt(c, s, true) })
 }
